@@ -6,7 +6,7 @@
    open-ended and has none); bucket_sum / bucket_count = usage / covered minutes of a bucket; bucket_value = NaN iff
    no covered minute; clean_day = downsample_and_clean_daily_data's value of a day (1/2 rule, 1/coverage scaling). *)
 From Coq Require Import ZArith QArith List Bool Lia.
-From V Require Import Model.Resample Proofs.ResampleProofs.
+From V Require Import Model.Resample Model.Cmp Generated.ResampleGen Proofs.ResampleProofs Proofs.ResampleGenProofs.
 Import ListNotations.
 Open Scope Z_scope.
 
@@ -322,3 +322,60 @@ Example C08_nonvacuous_minute_grid :
 Proof.
   split; [cbn; lia|]. split; [vm_compute; reflexivity|vm_compute; reflexivity].
 Qed.
+
+(* ------------------------------------------------------------------------------------------------ *)
+(* G. the model's constants and decision tables are the source's own (Generated/ResampleGen.v, regenerated from the *)
+(*    source by harness/translate_resample.py on every run)                                          *)
+(* ------------------------------------------------------------------------------------------------ *)
+
+(* downsample_and_clean_daily_data keeps / scales a day by the test the source states on dataset.coverage *)
+Theorem C08_downsample_rule_is_generated : forall v c,
+  clean_value v c =
+  if cmpq gen_ds_keep c then (if gen_ds_scaled then option_map (fun x => (x / c)%Q) v else v) else None.
+Proof. exact clean_value_generated_l. Qed.
+Print Assumptions C08_downsample_rule_is_generated.
+
+(* ... and warns about exactly the days it drops *)
+Theorem C08_downsample_warning_complement : forall c, cmpq gen_ds_warn c = negb (cmpq gen_ds_keep c).
+Proof. exact downsample_warning_complement_l. Qed.
+Print Assumptions C08_downsample_warning_complement.
+
+(* clean_billing_data: the window of valid period lengths is the source's `(filter_ <op> hi) & (filter_ <op> lo)` *)
+Theorem C08_offcycle_window_is_generated : forall g d, valid_len g d = cmpz (gen_hi g) d && cmpz (gen_lo g) d.
+Proof. exact valid_len_generated_l. Qed.
+Print Assumptions C08_offcycle_window_is_generated.
+
+(* ... and the off-cycle warning lists exactly the periods the window drops *)
+Theorem C08_offcycle_warning_complement : forall g d,
+  cmpz (gen_warn_hi g) d || cmpz (gen_warn_lo g) d = negb (valid_len g d).
+Proof. exact offcycle_warning_complement_l. Qed.
+Print Assumptions C08_offcycle_warning_complement.
+
+(* compute_minimum_granularity is the interpreter of the source's tables: the dict of ranges on the median day count
+   (last true key), the if/elif chain on fixed frequencies (first that holds), the MonthBegin/MonthEnd rule *)
+Theorem C08_granularity_is_generated_table : forall inf ts dflt, granularity inf ts dflt = granularity_tbl inf ts dflt.
+Proof. exact granularity_generated_l. Qed.
+Print Assumptions C08_granularity_is_generated_table.
+
+(* the ranges of the median table exclude one another, so the order of the dict's keys is immaterial *)
+Theorem C08_median_table_exclusive : forall m2 r1 r2 pre mid post,
+  gen_median_rules = pre ++ r1 :: mid ++ r2 :: post -> in_rule m2 r1 = true -> in_rule m2 r2 = false.
+Proof. exact median_rules_exclusive_l. Qed.
+Print Assumptions C08_median_table_exclusive.
+
+Example C08_nonvacuous_generated :
+  cmpq gen_ds_keep (3 # 4) = true /\ cmpq gen_ds_keep (1 # 2) = false /\ cmpq gen_ds_warn (1 # 2) = true /\
+  cmpz (gen_hi BillingMonthly) 35 && cmpz (gen_lo BillingMonthly) 35 = true /\
+  cmpz (gen_hi BillingMonthly) 36 && cmpz (gen_lo BillingMonthly) 36 = false /\
+  cmpz (gen_warn_hi BillingBimonthly) 71 = true /\
+  granularity_tbl NoFreq [0; 43200; 87840; 132480] Daily = Some BillingMonthly /\
+  granularity_tbl (Fixed 80640) [0; 80640; 161280] Daily = Some BillingBimonthly /\
+  in_rule 86400 (Some (CLt, 1), (CLe, 35), BillingMonthly) = true /\
+  in_rule 86400 (Some (CLt, 35), (CLe, 70), BillingBimonthly) = false.
+Proof. repeat split; vm_compute; reflexivity. Qed.
+
+(* the day count the source uses (wall clock or elapsed) on the 25-calendar-day period across a spring-forward day *)
+Example C08_generated_day_count_keeps_valid_period :
+  clean_billing gen_day_count_wall_clock ex_offs BillingMonthly ex_spring =
+    [(28488000, Some 250%Q); (28523940, Some 300%Q); (28567140, None)].
+Proof. vm_compute. reflexivity. Qed.
